@@ -174,3 +174,11 @@ Section C12.
     - rewrite app_length, observe_length. cbn [List.length]. now rewrite Nat.add_1_r.
   Qed.
 End C12.
+
+Lemma pure_variant_cond : forall v p m tid,
+  pure_variant v = true -> read_only m = true -> pure_cond v p m tid = true.
+Proof.
+  intros v p m tid Hv Hro. unfold pure_variant in Hv. apply andb_true_iff in Hv. destruct Hv as [Hg Hl].
+  destruct m; cbn in *; try discriminate; auto.
+  destruct (nth_error p tid); auto. rewrite Hg. apply orb_true_r.
+Qed.
